@@ -7,6 +7,7 @@ import (
 	"fmt"
 	"io"
 	"log"
+	"os"
 	"runtime"
 	"sort"
 	"strings"
@@ -300,6 +301,25 @@ func check(rec *hx.Recorder, c *faultCase, regions map[string]int64) (string, bo
 				if m, ok := comparePartial(rec, f, c.Streams[0], first, c.FileTypes[0], k); !ok {
 					msg = "Decode: " + m
 					return
+				}
+				// the same cut input as a regular file on disk (and, on other
+				// offsets, as the read end of a pipe): what comes back with
+				// the error does not depend on the kind of reader
+				if !isFault && k%5 == 2 {
+					kinds := gen.ReaderKinds(os.Getenv("VERIF_BUILD"))
+					kind := kinds[3+(k/5)%2] // regular *os.File / os.Pipe
+					if kr, _, done, oerr := kind.Open(li.data[:k]); oerr == nil {
+						fk, kerr := fit.Decode(kr)
+						done()
+						if kerr == nil {
+							msg = fmt.Sprintf("Decode through a %s returned nil error for a cut at offset %d; it needs %d bytes", kind.Name, k, need)
+							return
+						}
+						if m, ok := comparePartial(rec, fk, c.Streams[0], first, c.FileTypes[0], k); !ok {
+							msg = fmt.Sprintf("Decode through a %s: %s", kind.Name, m)
+							return
+						}
+					}
 				}
 			}
 		}
